@@ -260,6 +260,9 @@ PURE = {
     "tls_cbc_encrypt": _op_tls_cbc_encrypt, "tls_random_generate": _op_tls_random, "tls_pre_master_secret_generate": _op_tls_premaster,
 }
 SM9_KIND = {"sm9_sign": "sign", "sm9_encrypt": "enc", "sm9_exch_step_1A": "enc"}
+# operations whose first entropy draw is a scalar that has to lie in [1, n-1] (0 must be drawn again)
+ZERO_DRAW_OPS = ("sm2_key_generate", "sm2_sign", "sm2_do_sign", "sm2_sign_fixlen", "sm2_sign_ctx", "sm2_encrypt", "sm2_encrypt_fixlen", "sm2_encrypt_ctx",
+                 "sm9_sign_master_key_generate", "sm9_enc_master_key_generate", "sm9_sign", "sm9_encrypt", "sm9_exch_step_1A")
 
 pure_case = st.fixed_dictionaries({"op": st.sampled_from(sorted(PURE)), "seed": st.integers(0, 1 << 20), "n": st.integers(0, 300),
                                    "sa": st.integers(1, 1 << 40), "sb": st.integers(1, 1 << 40)})
@@ -307,6 +310,17 @@ def pure(case, ctx):
         ctx.case(nontrivial=True, classes=["fail:" + op], ident=["fail", op, seed, n, case["sa"], i])
         ctx.check(rf != 1, "%s reports success (ret=%d) although entropy draw %d of %d failed; output %s" % (op, rf, i, D1, of[:48].hex()),
                   "fail-open/%s/draw%d" % (op, i if i < 3 else 3))
+    # a degenerate draw: the source answers the first scalar draw with 32 zero bytes (k = 0 / r = 0 is outside [1, n-1] and must be drawn
+    # again).  The operation may fail; if it reports success its output must be what the same stream gives without the zero draw - an
+    # output that is neither is built on something that was never drawn (or on the zero scalar itself)
+    if op in ZERO_DRAW_OPS:
+        try:
+            sh.stream(case["sa"], bytes(32)); rz, oz = _call(l, op, seed, n)
+        finally:
+            sh.reset()
+        ctx.case(nontrivial=True, classes=["zero-draw:" + op, "zero-draw:" + ("redrawn" if rz == 1 else "refused")], ident=["zero-draw", op, seed, n, case["sa"]])
+        ctx.check(rz != 1 or oz == o1, "%s: with the first scalar draw answered by 32 zero bytes the operation reports success with an output (%s...) that differs from "
+                  "the one the same stream gives without the zero draw (%s...)" % (op, oz[:24].hex(), o1[:24].hex()), "zero-draw/" + op)
     # the other way a source fails: interrupted (EINTR) for a while - draws #i .. #i+K-1 fail, then the source works again (a failing draw
     # consumes nothing of the stream).  An implementation may give up (return != 1) or retry; if it reports success, what it produced must be
     # what the undisturbed stream produces - success built on bytes it never received is the violation.
